@@ -25,7 +25,7 @@ def main():
     ap.add_argument('--tier', default='quick')
     a = ap.parse_args()
     root = os.path.join(VERIF, 'seeded')
-    names = a.names or sorted(d for d in os.listdir(root) if os.path.isdir(os.path.join(root, d)))
+    names = a.names or sorted(d for d in os.listdir(root) if os.path.isdir(os.path.join(root, d)) and not d.startswith('_'))
     missed = 0
     for name in names:
         d = os.path.join(root, name)
